@@ -106,6 +106,7 @@ def run_scenario(sc):
         jobdirs = sorted(p for p in (d / "B").iterdir() if p.is_dir()) if (d / "B").exists() else []
         for jd in jobdirs:
             res["files"][jd.name] = [json.loads(f.read_text()) for f in sorted(jd.glob("*.json"))]
+            res.setdefault("file_names", {})[jd.name] = sorted(p.name for p in jd.iterdir())
             rc, tail = C.run_cli(["-o", str(d / "B2"), "pv2puml", "-fp", str(jd), "-jn", jd.name] + mc, d)
             if rc:
                 res["errors"].append(f"pv2puml {jd.name}: " + tail[-300:])
@@ -151,6 +152,7 @@ def run(out: common.Outcome, explore: int = 0) -> None:
     with ThreadPoolExecutor(max_workers=common.NPROC) as ex:
         results = list(ex.map(run_scenario, scs))
     pairs, where, problems = [], [], []
+    names_checks, names_where = [], []
     n_files = 0
     for k, (sc, r) in enumerate(zip(scs, results)):
         if r["errors"]:
@@ -170,6 +172,8 @@ def run(out: common.Outcome, explore: int = 0) -> None:
             n_files += len(saved)
             if saved != want:
                 problems.append((k, f"saved PV files of {name} differ from the in-memory stream", ""))
+            names_checks.append((len(mem.get(name, [])), r.get("file_names", {}).get(name, [])))
+            names_where.append((k, name))
             if sc["custom"] and any(set(e) != set(sc["mapping"].values()) for j in r["files"].get(name, []) for e in j):
                 problems.append((k, f"saved PV files of {name} do not use the custom field names", ""))
             try:
@@ -178,6 +182,24 @@ def run(out: common.Outcome, explore: int = 0) -> None:
             except ValueError as e:
                 if r["A"][name] != r["B"][name]:
                     problems.append((k, f"unlexable output for {name}: {e}", ""))
+    # the folder of every workflow holds exactly the files V.Pv.Files.save_jobs names for that many jobs
+    if okp and names_checks:
+        body = ";\n ".join("(%d%%nat, %s)" % (n, common.coq_list(['"%s"%%string' % x for x in fs])) for n, fs in names_checks)
+        okc, o = common.coq_eval("C14names", f"""From Coq Require Import List Bool Arith String. Import ListNotations.
+From V Require Import Pv.Files.
+Definition cases : list (nat * list string) := [
+ {body}].
+Definition sub (a b : list string) := forallb (fun x => existsb (String.eqb x) b) a.
+Definition idx {{A}} (f : A -> bool) (l : list A) : list nat := map fst (filter (fun p => negb (f (snd p))) (combine (seq 0 (List.length l)) l)).
+Eval vm_compute in (1%nat, idx (fun c => let ns := map fst (save_jobs nat (repeat 0%nat (fst c))) in
+                                          sub ns (snd c) && sub (snd c) ns && Nat.eqb (List.length ns) (List.length (snd c))) cases).
+""")
+        l = common.parse_nat_list(o, "1") if okc else None
+        if l is None:
+            problems.append((names_where[0][0], "certificate evaluation failed (file names)", o[-200:]))
+        else:
+            for i in l:
+                problems.append((names_where[i][0], f"folder of {names_where[i][1]} does not hold exactly pv_event_sequence_1..{names_checks[i][0]}.json", str(names_checks[i][1])[:200]))
     eq = L.coq_equiv(pairs) if okp and pairs else []
     for (k, name), e in zip(where, eq):
         if e is None:
